@@ -227,17 +227,29 @@ where
     print!("|");
     let len = labels.len();
     for (i, label) in labels.iter().enumerate() {
-        print!(" {:indent$} |", label, indent = widths[i]);
+        print!(" {} |", pad_to(&label.to_string(), widths[i]));
     }
     println!(
-        " {:indent$} |",
-        match result {
-            BDD::True => "True",
-            BDD::False => "False",
-            _ => unreachable!(),
-        },
-        indent = widths[len]
+        " {} |",
+        pad_to(
+            match result {
+                BDD::True => "True",
+                BDD::False => "False",
+                _ => unreachable!(),
+            },
+            widths[len]
+        )
     );
+}
+
+// left-align `s` in a column of `width` characters
+// (a `{:width$}` formatting argument panics for widths above u16::MAX, e.g. very long variable names)
+fn pad_to(s: &str, width: usize) -> String {
+    let fill = width.saturating_sub(s.chars().count());
+    let mut out = String::with_capacity(s.len() + fill);
+    out.push_str(s);
+    out.extend(std::iter::repeat(' ').take(fill));
+    out
 }
 
 // print header
@@ -249,11 +261,11 @@ where
     print!("|");
     for free_var in labels {
         let len = 1 + max(5, free_var.len());
-        print!(" {:indent$}|", free_var, indent = len);
+        print!(" {}|", pad_to(free_var, len));
     }
     println!();
     for width in widths {
-        print!("|{:->width$}", "", width = width + 2);
+        print!("|{}", "-".repeat(width + 2));
     }
     println!("|");
 }
